@@ -6,7 +6,7 @@ WT=$1; PATCH=$2; shift 2
 export GOFLAGS=-mod=mod GOPROXY=off GOSUMDB=off GOTOOLCHAIN=local
 cd "$WT" || exit 2
 git apply -R --check "$PATCH" 2>/dev/null || { git apply "$PATCH" || { echo "cannot apply"; exit 2; }; }
-echo "== with change: build + suite"; (go build ./... && go test -vet=off -count=1 ./... 2>&1 | tail -8) ; echo "suite rc=$?"
+echo "== with change: build + suite"; go build ./... && go test -vet=off -count=1 ./... > /tmp/seedconfirm_suite.$$ 2>&1; echo "suite rc=$? ($(grep -c '^ok' /tmp/seedconfirm_suite.$$) packages ok, $(grep -c '^FAIL\|^---  FAIL' /tmp/seedconfirm_suite.$$) FAIL lines)"; rm -f /tmp/seedconfirm_suite.$$
 echo "== with change: demo (expect FAIL)"; bash -c "$*" 2>&1 | tail -12; echo "demo rc=${PIPESTATUS[0]}"
 git apply -R "$PATCH"
 echo "== without change: demo (expect PASS)"; bash -c "$*" 2>&1 | tail -5; echo "demo rc=${PIPESTATUS[0]}"
